@@ -95,29 +95,31 @@ def Change.assoc (c : Change) : List (Nat × Nat) :=
 
 def mkIdent (name : String) : V := .ptr "ast.Ident" 0 [.pos true 0, .str name, .nilP "ast.Object"]
 
-def findImport (imps : List (Option String × String)) (path : String) : Option (Option String) :=
-  (imps.find? (fun p => p.2 == path)).map (·.1)
+/-- the names under which the file imports `path`, in `f.Imports` order -/
+def importCandidates (imps : List (Option String × String)) (path : String) : List (Option String) :=
+  (imps.filter (fun p => p.2 == path)).map (·.1)
 
-/-- `ImportMatcher.Match` -/
+/-- `ImportMatcher.matchSpec`: one import of the patch against one import of the same path -/
+def matchSpec (mt : Meta) (pat : Option String × String) (fname : Option String) (d : Data) : Option Data :=
+  match pat.1 with
+  | none => if fname.isNone then some d else none
+  | some nameS =>
+    match fname with
+    | none =>
+        if mt.look nameS != some Kind.ident then none
+        else
+          let d := { d with impMv := (nameS, true) :: d.impMv }
+          let d := { d with imp := (pat.2, { name := nameS, mvKey := some nameS }) :: d.imp }
+          matchMetavar .ident nameS (mkIdent nameS) d
+    | some fn =>
+        let d := { d with imp := (pat.2, { name := fn, mvKey := none }) :: d.imp }
+        match mt.look nameS with
+        | some k => matchMetavar k nameS (mkIdent fn) d
+        | none => if nameS == fn then some d else none
+
+/-- `ImportMatcher.Match` (after the `fix:` that tries every import of the path) -/
 def matchImport (mt : Meta) (pat : Option String × String) (f : FileM) (d : Data) : Option Data :=
-  match findImport f.imports pat.2 with
-  | none => none
-  | some fname =>
-    match pat.1 with
-    | none => if fname.isNone then some d else none
-    | some nameS =>
-      match fname with
-      | none =>
-          if mt.look nameS != some Kind.ident then none
-          else
-            let d := { d with impMv := (nameS, true) :: d.impMv }
-            let d := { d with imp := (pat.2, { name := nameS, mvKey := some nameS }) :: d.imp }
-            matchMetavar .ident nameS (mkIdent nameS) d
-      | some fn =>
-          let d := { d with imp := (pat.2, { name := fn, mvKey := none }) :: d.imp }
-          match mt.look nameS with
-          | some k => matchMetavar k nameS (mkIdent fn) d
-          | none => if nameS == fn then some d else none
+  firstSome (importCandidates f.imports pat.2) (fun fname => matchSpec mt pat fname d)
 
 def matchImports (mt : Meta) : List (Option String × String) → FileM → Data → Option Data
   | [], _, d => some d
@@ -289,26 +291,33 @@ def applySites (c : Change) (assoc : List (Nat × Nat)) : List Site → V → R 
       let tree' := if assignable give s.slotTy then setV s.parent s.field s.index give tree else tree
       applySites c assoc ss tree'
 
+/-- the (name, pkgName) pair `ImportReplacer.Replace` computes -/
+def importNames (c : Change) (d : Data) (imp : Option String × String) : R (Option String × String) :=
+  match imp.1 with
+  | none => .ok (none, pathBase imp.2)
+  | some nameS =>
+      let isMv := c.mt.look nameS == some Kind.ident
+      let unnamed := isMv && (d.impMv.lookup nameS == some true)
+      if unnamed then .ok (none, nameS)
+      else if (c.mt.look nameS).isSome then
+        (match d.lookMv nameS with
+         | some (.ptr t _ fs) =>
+             if t == "ast.Ident" then .ok (some (identName fs), identName fs)
+             else .error (.err "import name is not an identifier")
+         | some _ => .error (.err "import name is not an identifier")
+         | none => .error (.err s!"could not find value for metavariable {nameS}"))
+      else .ok (some nameS, nameS)
+
+def normName : Option String → Option String
+  | some "" => none
+  | n => n
+
 /-- `ImportReplacer.Replace`: returns the new import list and the package name added, if any -/
 def addImport (c : Change) (d : Data) (imp : Option String × String)
-    (imps : List (Option String × String)) : R (List (Option String × String) × Option String) := do
-  let (name, pkgName) ← (match imp.1 with
-    | none => (pure (none, pathBase imp.2) : R (Option String × String))
-    | some nameS =>
-        let isMv := c.mt.look nameS == some Kind.ident
-        let unnamed := isMv && (d.impMv.lookup nameS == some true)
-        if unnamed then pure (none, nameS)
-        else if (c.mt.look nameS).isSome then
-          (match d.lookMv nameS with
-           | some (.ptr t _ fs) =>
-               if t == "ast.Ident" then pure (some (identName fs), identName fs)
-               else throw (.err "import name is not an identifier")
-           | some _ => throw (.err "import name is not an identifier")
-           | none => throw (.err s!"could not find value for metavariable {nameS}"))
-        else pure (some nameS, nameS))
-  let name' : Option String := match name with | some "" => none | n => n
-  if imps.contains (name', imp.2) then pure (imps, none)
-  else pure (imps ++ [(name', imp.2)], if pkgName.isEmpty then none else some pkgName)
+    (imps : List (Option String × String)) : R (List (Option String × String) × Option String) :=
+  (importNames c d imp).bind (fun np =>
+    if imps.contains (normName np.1, imp.2) then .ok (imps, none)
+    else .ok (imps ++ [(normName np.1, imp.2)], if np.2.isEmpty then none else some np.2))
 
 def addImports (c : Change) (d : Data) : List (Option String × String) →
     List (Option String × String) → List String → R (List (Option String × String) × List String)
@@ -317,24 +326,31 @@ def addImports (c : Change) (d : Data) : List (Option String × String) →
       let (imps', n) ← addImport c d i imps
       addImports c d is imps' (match n with | some x => names ++ [x] | none => names)
 
+/-- names under which `Cleanup` looks at one matched import: (pkgName, importName) -/
+def cleanupNames (d : Data) (path : String) : String × Option String :=
+  let (pkgName, importName) : String × String :=
+    match d.imp.lookup path with
+    | some idata =>
+        let unnamed := match idata.mvKey with
+          | some k => d.impMv.lookup k == some true
+          | none => false
+        (idata.name, if unnamed then "" else idata.name)
+    | none => ("", "")
+  (if pkgName.isEmpty then pathBase path else pkgName, if importName.isEmpty then none else some importName)
+
+/-- one iteration of the loop of `Cleanup`: delete the matched import if it was replaced by
+name or its package name is no longer referred to -/
+def cleanupStep (d : Data) (tree : V) (newNames : List String) (path : String)
+    (imps : List (Option String × String)) : List (Option String × String) :=
+  let nm := cleanupNames d path
+  if newNames.contains nm.1 || !usesName nm.1 tree
+  then imps.filter (fun p => !(p.1 == nm.2 && p.2 == path)) else imps
+
 /-- `ImportsReplacer.Cleanup` -/
 def cleanupImports (d : Data) (tree : V) (newNames : List String) :
     List String → List (Option String × String) → List (Option String × String)
   | [], imps => imps
-  | path :: ps, imps =>
-      let (pkgName, importName) : String × String :=
-        match d.imp.lookup path with
-        | some idata =>
-            let unnamed := match idata.mvKey with
-              | some k => d.impMv.lookup k == some true
-              | none => false
-            (idata.name, if unnamed then "" else idata.name)
-        | none => ("", "")
-      let pkgName := if pkgName.isEmpty then pathBase path else pkgName
-      let nm : Option String := if importName.isEmpty then none else some importName
-      let imps' := if newNames.contains pkgName || !usesName pkgName tree
-                   then imps.filter (fun p => !(p.1 == nm && p.2 == path)) else imps
-      cleanupImports d tree newNames ps imps'
+  | path :: ps, imps => cleanupImports d tree newNames ps (cleanupStep d tree newNames path imps)
 
 /-- `file.Name.Name = r.Package` -/
 def renamePkg (tree : V) (pkg : String) : V :=
